@@ -261,8 +261,8 @@ type Lattice[S any] struct {
 	Init  S
 	Widen func(a, b S) S // optional: used instead of Join once a block was revisited often
 	Join  func(a, b S) S
-	Eq   func(a, b S) bool
-	Step func(s S, st Step) S // must not mutate its argument
+	Eq    func(a, b S) bool
+	Step  func(s S, st Step) S // must not mutate its argument
 }
 
 type Solution[S any] struct {
